@@ -16,10 +16,12 @@ def instsOf (r : Rec) : List (Inst Float) :=
   let counts := r.ints "counts"; let maxs := r.ints "maxs"; let renew := r.ints "renew"; let cadds := r.ints "cadds"
   let imms := r.list "imms"; let p2 := r.list "p2"
   let stats := if r.str "stats" == "" then [] else (r.str "stats").splitOn ";"
+  let weaks := if r.str "weaks" == "" then [] else (r.str "weaks").splitOn ";"
   (List.range uids.length).map fun k =>
     { uid := (uids.getD k 0).toNat, name := (names.getD k 0).toNat, source := srcs.getD k 0, dur := durs.getD k 0,
       count := counts.getD k 0, maxCount := maxs.getD k 0, countAdd := cadds.getD k 0, tickImm := imms.getD k "0" == "1",
-      canTickP2 := p2.getD k "0" == "1", renew := (renew.getD k 0).toNat, stats := ModAdapter.parseStats (stats.getD k "-") }
+      canTickP2 := p2.getD k "0" == "1", renew := (renew.getD k 0).toNat, stats := ModAdapter.parseStats (stats.getD k "-"),
+      weak := ModAdapter.parseWeak (weaks.getD k "-") }
 
 /-- adopt the implementation's attached lists -/
 def resync (s : St Float) (obs : List Rec) : St Float :=
@@ -78,7 +80,9 @@ def checkC06 (trace : List (Rec × List Rec)) : Option String := Id.run do
       if !close (r.flt "atkpct") atkpct then return some s!"unit {t}: ATK% {r.flt "atkpct"} is not base ⊕ Σ attached = {atkpct}"
       if !close (r.flt "reduce") (propTotal base l 90) then return some s!"unit {t}: damage reduction {r.flt "reduce"} is not the multiplicative combination {propTotal base l 90}"
       if !close (r.flt "cc") (propTotal base l 17) then return some s!"unit {t}: crit chance {r.flt "cc"} is not base ⊕ Σ attached"
-      let out := propTotal base l 5 * (1 + atkpct) + 0
+      let wantWeak : List Int := ((List.range 8).filter fun d => d ≥ 1 && weakTo (ModAdapter.baseWeak t) l d).map Int.ofNat
+      if r.ints "weak" != wantWeak then return some s!"unit {t}: weaknesses {r.ints "weak"} are not the union {wantWeak} of the unit's own and its attached instances'"
+      let out := propTotal base l 5 * (1 + atkpct) + (propTotal base l 7 + propTotal base l 8)
       if !close (r.flt "atk") (if out < 0 then 0 else out) then return some s!"unit {t}: ATK is not base×(1+percent)+flat"
     -- (b) snapshots are private
     if op.name == "mutsnap" && !prev.isEmpty then
